@@ -76,6 +76,7 @@ pub fn blocks(thorough: bool) -> Vec<Block> {
         b.push(Block::new(Universe::new("U_fold{s,U+017F,k,U+212A}", &["s", "\u{17f}", "k", "\u{212a}"], 3, 2, false), anch(&[I, I | R, I | X, I | R | X]), "{na,ne,na+ne} x {i, i+r, i+x, i+r+x}"));
         b.push(Block::new(u_kind_pairs(2, 2, false), anch(&[0]), "{na,ne,na+ne}"));
         b.push(Block::new(u_many(30), anch(&[0, R, X]), "{na,ne,na+ne} x {{}, r, x}"));
+        b.push(Block::new(Universe::new("U_b,U+00DF", &["b", "\u{df}"], 3, 0, false), vec![Cfg::new(NE | E | U), Cfg::new(NA | NE | E | U), Cfg::new(NE | E)], "ne+e+u, na+ne+e+u, ne+e (escaping on BMP-only inputs: no surrogate is ever written, the pattern is meant for the regex crate)"));
         let class_pairs: Vec<u32> = {
             let f = [D, ND, S, NS, W, NW];
             let mut v = vec![];
